@@ -206,7 +206,17 @@ class ThresholdPairCorr(Corr):
                 self._one(dict(case, mode=other), results, thr)
         extra = [A.make_object(g, f"x{j}", case["scene"].get("dim", "3d")) for j, g in enumerate(case.get("extra_gts", []))]
         try:
-            return {"strict": self._one(case, results, case["t_strict"], extra), "loose": self._one(case, results, case["t_loose"], extra)}
+            out = {"strict": self._one(case, results, case["t_strict"], extra), "loose": self._one(case, results, case["t_loose"], extra)}
+            if not A.MAXIMIZE[case["mode"]] and case["scene"].get("dim", "3d") == "3d":
+                # the loosest distance threshold there is: float("inf") (round 5 of DESIGN section 9).  It has no rational counterpart, so this
+                # third judgement is compared with the loose one by the Python oracle only (monotonicity), not by the model
+                try:
+                    inf = self._one(case, results, [float("inf")] * len(case["t_loose"]), extra)
+                    out["inf"] = {"tp_flags": inf["tp_flags"], "fn_flags": inf["fn_flags"], "n_tp": inf["n_tp"], "n_fn": inf["n_fn"],
+                                  "ap": (inf.get("ap") or {}).get("ap"), "aph": (inf.get("aph") or {}).get("ap")}
+                except Exception as e:      # noqa: BLE001
+                    out["inf"] = {"error": f"{type(e).__name__}: {e}"[:200]}
+            return out
         except AssertionError as e:
             # every generated threshold is valid for the case's mode (distances >= 0, IoU in [0, 1]): a rejection is reported by the oracle
             return {"error": f"AssertionError: {e}"}
@@ -248,6 +258,24 @@ class ThresholdPairCorr(Corr):
         fs = s["ap"]["facts"]
         # the property speaks about ordinary (non false-positive-labelled) ground truth
         has_fp_gt = any(f["gt_fp"] for f in fs)
+        u = obs.get("inf")
+        if u is not None:
+            if "error" in u:
+                return f"judging the results under {case['mode']} with the threshold float('inf') raises {u['error']}"
+            for i, f in enumerate(fs):
+                if f["gt_fp"]:
+                    continue
+                if l["tp_flags"][i] and not u["tp_flags"][i]:
+                    return f"result {i} is a TP at thresholds {case['t_loose']} but not at the loosest threshold float('inf') ({case['mode']})"
+                if u["fn_flags"][i] and not l["fn_flags"][i]:
+                    return f"ground truth of result {i} is an FN at the threshold float('inf') but not at {case['t_loose']} ({case['mode']})"
+            if not has_fp_gt:
+                if u["n_tp"] < l["n_tp"] or u["n_fn"] > l["n_fn"]:
+                    return f"TP / FN counts go from {l['n_tp']} / {l['n_fn']} to {u['n_tp']} / {u['n_fn']} when loosening {case['t_loose']} -> float('inf')"
+                for nm in ("ap", "aph"):
+                    a, b = (l.get(nm) or {}).get("ap"), u.get(nm)
+                    if a is not None and b is not None and b < a - 1e-9:
+                        return f"{nm} drops from {a} to {b} when loosening {case['t_loose']} -> float('inf') ({case['mode']})"
         for i, f in enumerate(fs):
             if f["gt_fp"]:
                 continue
